@@ -65,6 +65,8 @@ pub static SCENARIOS: &[ScenarioDef] = &[
         "shares of Rc::new_many / Rc::new_many_iter are released by two threads concurrently with rounds"),
     scen!("rc/weak-many-shares", weak_many_shares,
         "weak shares from Rc::weak_many are released by two threads while the object is destructed"),
+    scen!("rc/long-disposal", long_disposal,
+        "C14: a cascade over more than 128 nodes re-pins the reclaiming thread in the middle while another thread is pinned"),
     scen!("rc/concurrent-release", concurrent_release,
         "two threads release the last two handles of one graph concurrently"),
 ];
@@ -1034,6 +1036,44 @@ fn weak_many_shares(p: &Params) -> Program {
                 c.rounds(5);
             }),
         ],
+        ..base(p)
+    }
+}
+
+// ------------------------------------------------------------------------------------ C14
+
+fn long_disposal(p: &Params) -> Program {
+    let n = p.get("n", 130) as usize;
+    Program {
+        setup: Some(body(move |c, w| {
+            let g = c.pin();
+            let mut head = c.new_node(0);
+            for i in 1..n {
+                let nd = c.new_node(i as u32);
+                c.store(&c.node(&nd).next[0], head, &g);
+                head = nd;
+            }
+            c.store(&w.roots[0], head, &g);
+            let y = c.new_node(9999);
+            c.store(&w.roots[1], y, &g);
+            c.unpin(g);
+            c.rounds(4);
+            let g = c.pin();
+            c.store(&w.roots[0], Rc::null(), &g);
+            c.unpin(g);
+            c.rounds(2);
+        })),
+        threads: vec![
+            rounds_thread(3),
+            body(|c, w| {
+                let g = c.pin();
+                let s = c.load(&w.roots[1], &g);
+                c.sderef(s);
+                c.sderef(s);
+                c.unpin(g);
+            }),
+        ],
+        classes: p.get("classes", crate::sched::EBR as i64) as u8,
         ..base(p)
     }
 }
